@@ -19,7 +19,7 @@ import ast
 
 from ..core import (AnalysisError, Report, call_name, dotted, find_class, find_func, need,
                     norm, short)
-from ..flow import Disjunctive, Domain, Flow, each
+from ..flow import Disjunctive, Domain, Flow, MustFacts, each
 from ..index import Index
 from .c04 import layout_rule, r04_3
 
@@ -259,24 +259,40 @@ class _SegDom(Domain):
     def join(self, a, b): return a & b
     def leq(self, a, b): return a == b      # exact path facts: keep every distinct path
 
+    def _set(self, s: set, name: str, v: ast.AST, before: set) -> None:
+        s -= {f'{name}=T', f'{name}=F'}
+        if isinstance(v, ast.Constant) and v.value is True:
+            s.add(f'{name}=T')
+        elif isinstance(v, ast.Constant) and v.value is False:
+            s.add(f'{name}=F')
+        elif isinstance(v, ast.Name):
+            for k in ('T', 'F'):
+                if f'{v.id}={k}' in before:
+                    s.add(f'{name}={k}')
+        elif isinstance(v, ast.BoolOp) and isinstance(v.op, ast.Or):
+            if any(isinstance(x, ast.Name) and f'{x.id}=T' in before for x in v.values):
+                s.add(f'{name}=T')
+            elif all(isinstance(x, ast.Name) and f'{x.id}=F' in before for x in v.values):
+                s.add(f'{name}=F')
+        elif isinstance(v, ast.Call) and call_name(v) == 'self.update_traf_if_required' \
+                and name in ('moof_modified', 'traf_modified'):
+            s.add('piff-maybe')
+
     def transfer(self, st, s):
         s = set(s)
         txt = norm(st)
-        if isinstance(st, ast.Assign) and len(st.targets) == 1 and isinstance(st.targets[0], ast.Name):
-            name = st.targets[0].id
-            if name in ('moof_modified', 'traf_modified'):
-                before = set(s)
-                s -= {f'{name}=T', f'{name}=F'}
-                v = st.value
-                if isinstance(v, ast.Constant) and v.value is True:
-                    s.add(f'{name}=T')
-                elif isinstance(v, ast.Constant) and v.value is False:
-                    s.add(f'{name}=F')
-                elif isinstance(v, ast.BoolOp) and isinstance(v.op, ast.Or):
-                    if any(isinstance(x, ast.Name) and f'{x.id}=T' in before for x in v.values):
-                        s.add(f'{name}=T')
-                elif isinstance(v, ast.Call) and call_name(v) == 'self.update_traf_if_required':
-                    s.add('piff-maybe')
+        before = set(s)
+        tgt = val = None
+        if isinstance(st, ast.Assign) and len(st.targets) == 1:
+            tgt, val = st.targets[0], st.value
+        elif isinstance(st, ast.AnnAssign) and st.value is not None:
+            tgt, val = st.target, st.value
+        if isinstance(tgt, ast.Name):
+            self._set(s, tgt.id, val, before)
+        elif isinstance(tgt, ast.Tuple) and isinstance(val, ast.Tuple) and len(tgt.elts) == len(val.elts):
+            for t_, v_ in zip(tgt.elts, val.elts):
+                if isinstance(t_, ast.Name):
+                    self._set(s, t_.id, v_, before)
         for c in ast.walk(st):
             if isinstance(c, ast.Call):
                 cn = call_name(c) or ''
@@ -296,12 +312,14 @@ class _SegDom(Domain):
 
     def assume(self, test, s, truth):
         t = norm(test)
-        for name in ('moof_modified', 'traf_modified'):
-            if t == name:
-                if truth and f'{name}=F' in s:
-                    return None
-                if not truth and f'{name}=T' in s:
-                    return None
+        if isinstance(test, ast.UnaryOp) and isinstance(test.op, ast.Not):
+            return self.assume(test.operand, s, not truth)
+        if isinstance(test, ast.Name):
+            name = test.id
+            if truth and f'{name}=F' in s:
+                return None
+            if not truth and f'{name}=T' in s:
+                return None
         if t == 'tfhd is not None' and not truth:
             s = set(s) | {'base-reset'}
         if t == 'saio is not None and senc is not None' and not truth:
@@ -397,18 +415,38 @@ def r03_4_5(rep: Report) -> None:
     pcls = need(find_class(pr, 'PlayReady'), 'PlayReady')
     ut = need(find_func(pcls, 'update_traf_if_required'), 'update_traf_if_required')
     c3 = 'dashlive/drm/playready.py::PlayReady.update_traf_if_required'
-    t = norm(ut)
-    if "pos = traf.index('saiz')" in t and 'traf.insert_child(pos, piff)' in t:
+    from ..core import subst_locals
+    ins = [n for n in ast.walk(ut) if isinstance(n, ast.Call) and call_name(n) == 'traf.insert_child']
+    if ins and all(len(n.args) == 2 and norm(subst_locals(ut, n.args[0], allow_calls=True)) == "traf.index('saiz')" for n in ins):
         rep.ok('R03.5', c3, 'PIFF box inserted before saiz')
     else:
         rep.fail('R03.5', c3, 'PIFF box inserted before saiz', 'PIFF insertion idiom changed', ut)
-    ins_line = next((n.lineno for n in ast.walk(ut) if isinstance(n, ast.Call)
-                     and call_name(n) == 'traf.insert_child'), 0)
-    rets_true = [n for n in ast.walk(ut) if isinstance(n, ast.Return)
-                 and isinstance(n.value, ast.Constant) and n.value.value is True]
-    inval = any(isinstance(n, ast.Call) and call_name(n) == 'traf.trun._invalidate' and n.lineno > ins_line
-                for n in ast.walk(ut))
-    if rets_true and all(r.lineno > ins_line for r in rets_true) and inval:
+
+    def gen_piff(st):
+        out = []
+        for n in ast.walk(st):
+            if isinstance(n, ast.Call):
+                if call_name(n) == 'traf.insert_child':
+                    out.append('inserted')
+                if call_name(n) == 'traf.trun._invalidate':
+                    out.append('invalidated')
+        return out
+    piff_exits: list = []
+
+    def on_exit_piff(kind, st, states):
+        if kind in ('return', 'fall'):
+            piff_exits.extend((st, x) for x in states)
+    from ..flow import Disjunctive as _Dj
+    Flow(_Dj(MustFacts(gen_piff), cap=256), on_exit=on_exit_piff).run(ut, [frozenset()])
+    good = bool(piff_exits) and any('inserted' in x for _s, x in piff_exits)
+    for st_, x in piff_exits:
+        ret_true = st_ is not None and isinstance(st_, ast.Return) and isinstance(st_.value, ast.Constant) \
+            and st_.value.value is True
+        if 'inserted' in x and not (ret_true and 'invalidated' in x):
+            good = False
+        if 'inserted' not in x and ret_true:
+            good = False
+    if good:
         rep.ok('R03.5', c3, 'reports the modification and invalidates trun')
     else:
         rep.fail('R03.5', c3, 'reports the modification and invalidates trun',
